@@ -40,16 +40,22 @@
   (ite (and (isStr l) (isNum r)) (and (not err) (= res (VStr (str.cat (vstr l) (numText (vf64 r))))))
   (ite (and (isNum l) (isStr r)) (and (not err) (= res (VStr (str.cat (numText (vf64 l)) (vstr r)))))
   err)))))
+; numeric strings: an arithmetic, comparison or bitwise operand that is a string is coerced exactly like a numeric literal of the
+; same text (both digit scripts, through the one transliteration); a string that does not coerce is an error.  Division by a
+; string worth zero is division by zero.
+(define-fun numLike ((v Val)) Bool (or (isNum v) (isStr v)))
+(define-fun coerces ((v Val)) Bool (or (isNum v) (and (isStr v) (ext.parsefloat.ok (trStr (vstr v))))))
+(define-fun numOf ((v Val)) F64 (ite (isNum v) (vf64 v) (ext.parsefloat.val (trStr (vstr v)))))
 (define-fun binOK ((op Int) (l Val) (r Val) (res Val) (err Bool)) Bool
   (ite (= op K_token_PLUS) (plusOK l r res err)
   (ite (= op K_token_EQUAL_EQUAL) (and (not err) (isBool res) (eqOK l r (vbool res)))
   (ite (= op K_token_BANG_EQUAL) (and (not err) (isBool res) (eqOK l r (not (vbool res))))
-  (ite (isArithOp op) (ite (bothNum l r) (arithOK op (vf64 l) (vf64 r) res err) (ite (strInvolved l r) true err))
-  (ite (isBitOp op) (ite (bothNum l r) (ite (and (intOK (vf64 l)) (intOK (vf64 r))) (bitOK op (intOf (vf64 l)) (intOf (vf64 r)) res err) err) (ite (strInvolved l r) true err))
+  (ite (isArithOp op) (ite (and (numLike l) (numLike r) (coerces l) (coerces r)) (arithOK op (numOf l) (numOf r) res err) err)
+  (ite (isBitOp op) (ite (and (numLike l) (numLike r) (coerces l) (coerces r) (intOK (numOf l)) (intOK (numOf r))) (bitOK op (intOf (numOf l)) (intOf (numOf r)) res err) err)
   err))))))
 ; unary operators
 (define-fun unOK ((op Int) (v Val) (res Val) (err Bool)) Bool
   (ite (= op K_token_BANG) (and (not err) (= res (VBool (not (truthySpec v)))))
-  (ite (= op K_token_MINUS) (ite (isNum v) (and (not err) (= res (VF64 (fp.neg (vf64 v))))) (ite (isStr v) true err))
-  (ite (= op K_token_NOT) (ite (isNum v) (ite (intOK (vf64 v)) (and (not err) (= res (VF64 (ofInt (bvnot (intOf (vf64 v))))))) err) (ite (isStr v) true err))
+  (ite (= op K_token_MINUS) (ite (and (numLike v) (coerces v)) (and (not err) (= res (VF64 (fp.neg (numOf v))))) err)
+  (ite (= op K_token_NOT) (ite (and (numLike v) (coerces v) (intOK (numOf v))) (and (not err) (= res (VF64 (ofInt (bvnot (intOf (numOf v))))))) err)
   err))))
